@@ -117,6 +117,34 @@ func c09Effective(s c09Scr, kind c09Kind, ch string) c09Scr {
 	return c09Scr{"ok", 0}
 }
 
+// what the OnCommandRead hook answers, a function of the command id as well (ids whose handler
+// script is "ok", so that only the hook decides): typed client error, untyped error (=> internal),
+// disconnect; everything else passes.
+func c09Read(id uint32) c09Scr {
+	switch id % 32 {
+	case 21:
+		if id%64 == 21 {
+			return c09Scr{"err", 4001}
+		}
+		return c09Scr{"err", 100}
+	case 5:
+		if id%64 == 5 {
+			return c09Scr{"disc", 3999}
+		}
+	}
+	return c09Scr{"ok", 0}
+}
+
+func (s c09Scr) coqRead() string {
+	switch s.Kind {
+	case "err":
+		return vApp("RdErr", vN(uint64(s.Code)))
+	case "disc":
+		return vApp("RdDisc", vN(uint64(s.Code)))
+	}
+	return "RdOk"
+}
+
 type c09FailBroker struct{ *MemoryBroker }
 
 func c09EngineErr(kind c09Kind, ch string) error {
@@ -187,6 +215,7 @@ type c09Cmd struct {
 	Chan   string   `json:"chan"`
 	Tok    bool     `json:"tok"`
 	Script c09Scr   `json:"script"`
+	Read   c09Scr   `json:"read"`
 	RawScript string `json:"raw_script,omitempty"`
 	names  []string `json:"-"`
 }
@@ -196,7 +225,7 @@ func (c c09Cmd) coq() string {
 	for i, f := range c.Fields {
 		fs[i] = c09KindCoq[f]
 	}
-	return vApp("mkCmd", vN(uint64(c.ID)), vList(fs), vN(c09ChanN(c.Chan)), vBool(c.Tok), c.Script.coq())
+	return vApp("mkCmd", vN(uint64(c.ID)), vList(fs), vN(c09ChanN(c.Chan)), vBool(c.Tok), c.Script.coq(), c.Read.coqRead())
 }
 
 func c09Build(id uint32, fields []int, ch string, tok bool) *protocol.Command {
@@ -238,7 +267,7 @@ func c09Build(id uint32, fields []int, ch string, tok bool) *protocol.Command {
 
 // abstraction of a decoded command (what the model gets)
 func c09Abstract(cmd *protocol.Command) c09Cmd {
-	out := c09Cmd{ID: cmd.Id, Script: c09Script(cmd.Id)}
+	out := c09Cmd{ID: cmd.Id, Script: c09Script(cmd.Id), Read: c09Read(cmd.Id)}
 	add := func(k c09Kind, ch string, tok string, hasTok bool) {
 		out.Fields = append(out.Fields, int(k))
 		if ch != "" {
@@ -563,7 +592,7 @@ func c09RunCase(t *testing.T, r *rand.Rand, fixed []func(h *c09Harness) *c09Labe
 	node.SetPresenceManager(c09FailPresence{})
 	node.OnCommandRead(func(_ *Client, e CommandReadEvent) error {
 		h.curID = e.Command.Id
-		return nil
+		return c09Err(c09Read(e.Command.Id)) // no handler event: the handler must not run after a refusal
 	})
 	node.OnConnecting(func(_ context.Context, _ ConnectEvent) (ConnectReply, error) {
 		id := h.curID
@@ -986,7 +1015,7 @@ func c09GenNice(r *rand.Rand, h *c09Harness, cfg c09Config, auth bool) *c09Label
 	for k := 0; k < n; k++ {
 		h.niceID++
 		id := h.niceID
-		for c09Script(id).Kind == "disc" && r.Intn(8) != 0 {
+		for (c09Script(id).Kind == "disc" || c09Read(id).Kind == "disc") && r.Intn(8) != 0 {
 			h.niceID++
 			id = h.niceID
 		}
